@@ -62,6 +62,7 @@ S_I18N = [K("k3::S-Translate-name"), K("k3::S-Translate-name-condition"), K("k3:
           K("k3::S-I18nDomain"), K("k3::S-I18nContext"), K("k3::S-I18nTarget"), K("k3::S-I18nAttributes"),
           K("k3::S-Content-translate")]
 S_METAL = [K("k3::S-UseExternal"), K("k3::S-MacroUseInternal"), K("k3::S-MacroBody"), K("k3::S-TwoMacros"),
+           K("k3::S-MacroBody-slot-define"),
            K("k3::S-MacroUseInternal-after-expr")]
 K2Q = [K("compiler.py::K2.__quote"), K("compiler.py::K2.__quote@char"), K("compiler.py::K2.__convert"),
        U('pyvc.homshape', 'unit', 'K2.__quote.hom.shape')]
